@@ -1,7 +1,7 @@
 SPECIFICATION TrSpec
 CONSTANTS
     Groups = {"a", "b", "c"}
-    Kinds = {"int", "float", "str", "none"}
+    Kinds = {"int", "float", "str", "bool", "none"}
     Values <- MCNoValues
     Cfgs <- MCNoCfgs
     Modes = {"batch", "stream"}
